@@ -28,6 +28,12 @@ def gen_hierarchy(rng):
                 attrs.append((nm, "plain", None, False, rng.random() < 0.5))
             else:
                 attrs.append((nm, "property", None, False, False))
+        if base is not None and rng.random() < 0.3:
+            inherited = [a for a in classes[base]["attrs"] if a[1] in ("on", "after") and a[0] not in [x[0] for x in attrs]]
+            if inherited:
+                (nm, kind, action, skip, _) = rng.choice(inherited)
+                # the parent's decorated function object itself, decorated again for another action / other options
+                attrs.append((nm, kind, rng.choice([a for a in ACTIONS if a != action]), rng.random() < 0.3 if kind == "on" else False, "redecorate"))
         classes.append({"name": "K%d" % i, "base": base, "attrs": attrs})
     return classes
 
@@ -70,18 +76,27 @@ def build(classes, order, version="1.6"):
                     raise RuntimeError("getter %s.%s evaluated" % (_cn, _nm))
                 ns[nm] = property(getter)
                 continue
-            src = "%sdef %s(self, **kwargs):\n    return None\n" % ("async " if is_async else "", nm)
-            loc = {}
-            exec(src, {}, loc)  # noqa: S102
-            fn = loc[nm]
-            fn._ov_owner = c["name"]
+            if is_async == "redecorate":
+                fn = inspect.getattr_static(built[c["base"]], nm)
+            else:
+                src = "%sdef %s(self, **kwargs):\n    return None\n" % ("async " if is_async else "", nm)
+                loc = {}
+                exec(src, {}, loc)  # noqa: S102
+                fn = loc[nm]
+                fn._ov_owner = c["name"]
             if kind == "on":
                 fn = on(action, skip_schema_validation=skip)(fn)
             elif kind == "after":
                 fn = after(action)(fn)
+            if is_async == "redecorate":
+                fn._ov_owner = c["name"]          # the new wrapper belongs to this class (decorating returns a new function)
             ns[nm] = fn
         base = built[c["base"]] if c["base"] is not None else (CP16 if version == "1.6" else CP201)
         built[ci] = type(c["name"], (base,), ns)
+        try:
+            built[ci]("early", None)           # an instance exists before the classes defined later do
+        except RuntimeError:
+            pass                               # a getter was evaluated: it is in the log
     return built, log
 
 
